@@ -51,14 +51,15 @@ NUE == MaxCnt
 Psi(u) == u                        \* the emulator derives the session identity from the SUPI: distinct per UE, one per UE
 Assigned(u) == 100 + u             \* what the network assigns to UE u's session (UE address, TEID, UPF address)
 
-Init == /\ cnt \in [reg : 0..MaxCnt, pdu : 0..MaxCnt, svc : 0..MaxCnt, rel : 0..MaxCnt, dereg : 0..MaxCnt]
-        /\ pc = <<0, 0, 0>>
-        /\ ue = [u \in 1..NUE |-> [amfId |-> -1, ulc |-> 0, gen |-> 0, reg |-> FALSE, pdu |-> FALSE]]
-        /\ ul = <<>> /\ dl = <<>>
-        /\ amf = [u \in 1..NUE |-> [st |-> "none", amfId |-> -1, ulx |-> 0, sess |-> "none", psi |-> -1, await |-> {}]]
-        /\ bad = {} /\ used = {} /\ exit = -1 /\ banner = FALSE /\ reports = {}
-        /\ fault \in [kind : Faults, at : 0..(IF Faults = {"none"} THEN 0 ELSE 6 * MaxCnt), fired : {FALSE}, closed : {FALSE}, ioAfter : {FALSE}]
-        /\ (fault.kind = "none" => fault.at = 0)
+InitCfg == /\ cnt \in [reg : 0..MaxCnt, pdu : 0..MaxCnt, svc : 0..MaxCnt, rel : 0..MaxCnt, dereg : 0..MaxCnt]
+           /\ fault \in [kind : Faults, at : 0..(IF Faults = {"none"} THEN 0 ELSE 6 * MaxCnt), fired : {FALSE}, closed : {FALSE}, ioAfter : {FALSE}]
+           /\ (fault.kind = "none" => fault.at = 0)
+InitRest == /\ pc = <<0, 0, 0>>
+            /\ ue = [u \in 1..NUE |-> [amfId |-> -1, ulc |-> 0, gen |-> 0, reg |-> FALSE, pdu |-> FALSE]]
+            /\ ul = <<>> /\ dl = <<>>
+            /\ amf = [u \in 1..NUE |-> [st |-> "none", amfId |-> -1, ulx |-> 0, sess |-> "none", psi |-> -1, await |-> {}]]
+            /\ bad = {} /\ used = {} /\ exit = -1 /\ banner = FALSE /\ reports = {}
+Init == InitCfg /\ InitRest
 
 \* ---------------------------------------------------------------------------------------------- emulator
 NextPc(p) == IF p[1] = 0 THEN <<1, 1, 1>>
@@ -132,13 +133,13 @@ Out(m, a) ==
      [] m.t = "PDUSessionReleaseRequest" -> << [t |-> "PduRelCmd", amfId |-> a.amfId] >>
      [] m.t = "DeregistrationRequest" -> << [t |-> "DL_DeregAccept", amfId |-> a.amfId], [t |-> "CtxRelCmd", amfId |-> a.amfId] >>
      [] OTHER -> <<>>
-\* deliver the AMF's messages, applying the fault to the message with index fault.at (messages the emulator ignores are not garbled)
+\* deliver the AMF's messages, applying the fault to the message with index fault.at (the one message whose decoding result the emulator ignores is not garbled)
 RECURSIVE Deliver(_, _, _, _)
 Deliver(q, outs, f, n) ==     \* returns <<queue, fault>>; n = number of downlink messages produced so far
    IF Len(outs) = 0 THEN <<q, f>>
    ELSE IF f.closed THEN Deliver(q, Tail(outs), f, n + 1)
    ELSE IF f.kind = "close" /\ n = f.at THEN Deliver(q, Tail(outs), [f EXCEPT !.fired = TRUE, !.closed = TRUE], n + 1)
-   ELSE IF f.kind = "garbage" /\ n = f.at /\ ~f.fired /\ Head(outs).t \notin {"DL_CfgUpd", "PduRelCmd"}
+   ELSE IF f.kind = "garbage" /\ n = f.at /\ ~f.fired /\ Head(outs).t # "DL_CfgUpd"
         THEN Deliver(Append(q, [t |-> "garbage", amfId |-> -1]), Tail(outs), [f EXCEPT !.fired = TRUE], n + 1)
    ELSE Deliver(Append(q, Head(outs)), Tail(outs), f, n + 1)
 
